@@ -8,7 +8,7 @@
    Reading of the property's index convention (0-based table index, N n -> n-1): DESIGN.md, section C42. *)
 From Coq Require Import ZArith QArith List Bool Reals.
 From PCB Require Import lib.Result lib.PyInt gen.Gen_play model.Play model.PlaySpec
-                        proofs.Play_proofs proofs.Play_fuel_proofs proofs.Play_freq_proofs.
+                        proofs.Play_proofs proofs.Play_fuel_proofs proofs.Play_multi_proofs proofs.Play_freq_proofs.
 Import ListNotations.
 Open Scope Z_scope.
 
@@ -113,6 +113,56 @@ Theorem C42_scanner_total_without_x : forall e st s,
   no_x s -> snd (play (S (length s)) e st s) <> OutOfFuel.
 Proof. exact play_total_without_x. Qed.
 Print Assumptions C42_scanner_total_without_x.
+
+(* ---- multi-string PLAY (Tandy/PCjr): three voices with their own play states; `play_multi` takes the turns in
+   the order of the loop in Sound.play_.  For ALL strings: the tone signals of voice w (`proj w`) and the final
+   state of voice w are those of the one-voice interpreter run on string w from state w alone *)
+Theorem C42_multi_voice_independent : forall fuel e sts ss evs sts',
+  play_multi fuel e sts ss = (evs, sts', Ok tt) ->
+  forall w, run (get3 w sts) (lex fuel e (get3 w ss)) = (proj w evs, get3 w sts', Ok tt).
+Proof. exact play_multi_independent. Qed.
+Print Assumptions C42_multi_voice_independent.
+
+(* also when the statement is cut short by an error in some voice: each voice ran a prefix of its own string *)
+Theorem C42_multi_voice_prefix : forall fuel e sts ss evs sts' status,
+  play_multi fuel e sts ss = (evs, sts', status) ->
+  forall w, exists pre rest,
+    lex fuel e (get3 w ss) = pre ++ rest /\ run (get3 w sts) pre = (proj w evs, get3 w sts', Ok tt).
+Proof. exact play_multi_prefix. Qed.
+Print Assumptions C42_multi_voice_prefix.
+
+(* the same for every order of turns whatsoever (not only the one of Sound.play_) *)
+Theorem C42_multi_voice_frame : forall turns sts css evs sts' css' status,
+  run_sched turns sts css = (evs, sts', css', status) ->
+  forall w, exists pre,
+    get3 w css = pre ++ get3 w css' /\ run (get3 w sts) pre = (proj w evs, get3 w sts', Ok tt).
+Proof. exact run_sched_frame. Qed.
+Print Assumptions C42_multi_voice_frame.
+
+(* an omitted, empty or blank string: nothing is emitted on that voice and its state is unchanged *)
+Theorem C42_multi_voice_empty_string : forall fuel e sts ss evs sts' status w,
+  play_multi (S fuel) e sts ss = (evs, sts', status) -> skip_blank (get3 w ss) = [] ->
+  proj w evs = [] /\ get3 w sts' = get3 w sts.
+Proof. exact play_multi_empty_voice. Qed.
+Print Assumptions C42_multi_voice_empty_string.
+
+(* the turn order of Sound.play_ (incl. its remove-during-iteration skip) gives every voice exactly as many turns
+   as it has commands - finite sweep, bound in the statement; the independence theorems do not depend on it *)
+Theorem C42_turn_order_complete_bounded : forall a b c, (a < 25)%nat -> (b < 25)%nat -> (c < 25)%nat ->
+  count_turns V0 (sched (a, b, c)) = a /\ count_turns V1 (sched (a, b, c)) = b
+  /\ count_turns V2 (sched (a, b, c)) = c.
+Proof. exact sched_complete_bounded. Qed.
+Print Assumptions C42_turn_order_complete_bounded.
+
+(* non-vacuity: PLAY "O1L64C","","O6L32C" finishes; voice 0 sounds index 12, voice 2 index 72, voice 1 keeps O4 *)
+Example C42_multi_nonvacuous :
+  let i := (init_state, init_state, init_state) in
+  let r := play_multi 100 [] i ([79;49;76;54;52;67], [], [79;54;76;51;50;67]) in
+  snd r = Ok tt /\ sounding (proj V0 (fst (fst r))) = [12] /\ sounding (proj V1 (fst (fst r))) = []
+  /\ sounding (proj V2 (fst (fst r))) = [72]
+  /\ map (fun v => st_octave (get3 v (snd (fst r)))) [V0; V1; V2] = [1; 4; 6]
+  /\ map (fun p => voice_code (fst p)) (fst (fst r)) = [0; 0; 2; 2].
+Proof. vm_compute. repeat split; reflexivity. Qed.
 
 (* ---- the frequency table (the only theorems with real-number axioms) *)
 Theorem C42_freq_table : forall i : nat, (i < 84)%nat ->
